@@ -70,6 +70,12 @@ def run_translator():
                 os.remove(os.path.join(gen, name))
             except FileNotFoundError:
                 pass
+    # a regenerated file invalidates every compiled generated file (they import each other); make's
+    # mtime logic alone is not reliable after a file was removed and re-created
+    if any(v != 'unchanged' for v in status.values()):
+        for vo in glob.glob(os.path.join(gen, '*.vo')):
+            if os.path.basename(vo) != 'OracleTables.vo':
+                os.remove(vo)
     return status
 
 def coq_make():
@@ -83,6 +89,7 @@ def coq_make():
     log = out + err
     # failed targets, and everything that depends on them, are not built (a stale .vo may remain)
     failed = set(re.findall(r'\*\*\* \[Makefile[^\]]*: ([^\]]+\.vo)\] Error', log))
+    failed |= set(re.findall(r"No rule to make target '[^']+', needed by '([^']+\.vo)'", log))
     deps = {}
     try:
         for line in open(os.path.join(COQ, '.Makefile.d'), encoding='utf-8'):
@@ -118,7 +125,7 @@ def build_driver():
     os.makedirs(ex, exist_ok=True)
     drv = os.path.join(ex, 'driver')
     deps = glob.glob(os.path.join(COQ, 'theories', 'Model', '*.vo')) + glob.glob(os.path.join(COQ, 'theories', 'Base', '*.vo')) + glob.glob(os.path.join(COQ, 'theories', 'Engine', '*.vo')) + \
-           [os.path.join(COQ, 'theories', 'Extract.v'), os.path.join(VERIF, 'driver', 'driver.ml')]
+           [os.path.join(COQ, 'theories', 'Extract.v'), os.path.join(COQ, 'theories', 'ExtractPy.v'), os.path.join(VERIF, 'driver', 'driver.ml'), os.path.join(VERIF, 'driver', 'pydriver.ml')]
     if os.path.exists(drv) and all(os.path.getmtime(d) <= os.path.getmtime(drv) for d in deps):
         return True, ''
     for f in ['model.ml', 'model.mli', 'driver']:
@@ -132,7 +139,22 @@ def build_driver():
     rc, out, err = sh(['timeout', '600', 'ocamlfind', 'ocamlopt', '-w', '-a', '-o', 'driver', 'model.mli', 'model.ml', 'driver.ml'], cwd=ex)
     if rc != 0:
         return False, 'driver compile failed: ' + (out + err)[-2000:]
+    build_pydriver()
     return True, ''
+
+def build_pydriver():
+    """the Python-rewrite model is extracted separately (it depends on gen/SrcPython.v)"""
+    ex = os.path.join(BUILD, 'extracted')
+    for f in ['pymodel.ml', 'pymodel.mli', 'pydriver']:
+        try: os.remove(os.path.join(ex, f))
+        except FileNotFoundError: pass
+    rc, out, err = sh(['timeout', '600', 'coqc', '-Q', os.path.join(COQ, 'theories'), 'Grex', '-Q', os.path.join(COQ, 'gen'), 'GrexGen',
+                       '-o', os.path.join(ex, 'ExtractPy.vo'), os.path.join(COQ, 'theories', 'ExtractPy.v')], cwd=ex)
+    if rc != 0 or not os.path.exists(os.path.join(ex, 'pymodel.ml')):
+        return False
+    shutil.copyfile(os.path.join(VERIF, 'driver', 'pydriver.ml'), os.path.join(ex, 'pydriver.ml'))
+    rc, out, err = sh(['timeout', '600', 'ocamlfind', 'ocamlopt', '-w', '-a', '-o', 'pydriver', 'pymodel.mli', 'pymodel.ml', 'pydriver.ml'], cwd=ex)
+    return rc == 0
 
 _prepared = None
 
@@ -164,14 +186,17 @@ def prepare(full=False):
     st['make_log'] = log
     st['t_coq'] = round(time.time() - t0, 1)
     st['audit'] = audit_sources()
-    model_ok = all(v for k, v in built.items() if k.startswith('theories/Model/') or k.startswith('theories/Base/') or k.startswith('theories/Engine/Syntax') or k.startswith('theories/Engine/Parse') or k.startswith('gen/'))
+    core = ['theories/Base/Str.v', 'theories/Model/Config.v', 'theories/Model/Cluster.v', 'theories/Model/Dfa.v', 'theories/Model/Expr.v',
+            'theories/Model/Print.v', 'theories/Model/Pipeline.v', 'theories/Engine/Syntax.v', 'theories/Engine/Parse.v', 'theories/Engine/Exec.v',
+            'theories/Engine/ExecCi.v', 'gen/GrexTables.v', 'gen/SrcConsts.v', 'gen/OracleTables.v']
+    model_ok = all(built.get(k, False) for k in core)
     if model_ok:
         ok, msg = build_driver()
         st['driver_ok'] = ok
         if not ok:
             st['errors'].append(msg)
     else:
-        st['errors'].append('model files do not compile: ' + ', '.join(k for k, v in built.items() if not v))
+        st['errors'].append('model files do not compile: ' + ', '.join(k for k in core if not built.get(k, False)))
     st['t_total'] = round(time.time() - t0, 1)
     _prepared = st
     return st
